@@ -61,6 +61,17 @@ def subst(text, mapping):
     return text
 
 
+def _canon(text, fi):
+    """local names -> $n so that a rename does not change a finding key"""
+    params = set(fi.all_params)
+    binds = sorted(((n.lineno, n.col_offset, n.id) for n in ast.walk(fi.node) if isinstance(n, ast.Name) and isinstance(n.ctx, ast.Store) and n.id not in params))
+    mp = {}
+    for _, _, nm in binds:
+        mp.setdefault(nm, "$%d" % (len(mp) + 1))
+    import re as _re
+    return _re.sub(r"[A-Za-z_][A-Za-z_0-9]*", lambda m_: mp.get(m_.group(0), m_.group(0)), text)
+
+
 def run(index, rep, tier):
     rep.rule("R03.1", "who may write the link fields (_parent_node, _child_nodes, _edge, _head_node, _seed_node): only the book-keeping functions in the frozen table, one reason each")
     rep.rule("R03.2", "pairing inside each writer: P1 `A._parent_node = B` is accompanied by A being placed in B's child list; P2 placing C into X's child list is accompanied by C._parent_node = X; P3 `A._parent_node = None` is accompanied by A's removal from the old list / A becoming the seed / the old list being cleared")
@@ -216,6 +227,28 @@ def run(index, rep, tier):
     with rep.section("R03.7"):
         rep.rule("R03.7", "an operation asked to update bipartitions leaves what a fresh encoding would produce: every encode renews every edge's bipartition and compiles all of them against the tree's current leaf set (C01 R01.10, R01.3)")
         rep.floor("R03.7", "borrowed obligations", 4, borrow(index, rep, "C01", {"R01.10", "R01.3"}, "R03.7"))
+
+    # ---- R03.8 a parent is dereferenced only where it is known to exist
+    with rep.section("R03.8"):
+        rep.rule("R03.8", "a parent is dereferenced only where it is known to exist: in the restructuring methods of Tree / Node every `<x>.tail_node.<member>` / `<x>._parent_node.<member>` / `<x>.parent_node.<member>` is dominated by a test on that very expression (the seed node has no parent: an unguarded dereference turns 'remove the last leaf' into an AttributeError instead of the documented SeedNodeDeletionException)")
+        PAR = ("_parent_node", "parent_node", "tail_node")
+        nder = 0
+        for m in (TM + "_tree", TM + "_node"):
+            for f in index.functions_in_module(m):
+                g = None
+                for x in walk_no_nested(f.node):
+                    if not (isinstance(x, ast.Attribute) and isinstance(x.value, ast.Attribute) and x.value.attr in PAR and isinstance(x.ctx, ast.Load)):
+                        continue
+                    g = g or cfg_of(f)
+                    base = norm(x.value)
+                    nds = [n_ for n_ in g.nodes if any(x is y for e in node_exprs(n_) for y in ast.walk(e))]
+                    if not nds:
+                        continue
+                    nder += 1
+                    ok = g.dominated_by(nds[0], lambda n_: n_.kind == "test" and base in norm(n_.ast), follow_exc=False)
+                    rep.check(ok, "R03.8", f.qualname, "`%s` dereferenced without a test" % _canon(base, f), fn_where(f, x), "%s: `%s` follows a test on `%s`" % (f.qualname, norm(x)[:40], base),
+                              "%s evaluates `%s` without ever testing `%s`: for the seed node (or a detached node) that is None, so removing the last remaining leaf - prune_taxa(all taxa), retain_taxa([]) - dies with AttributeError: 'NoneType' object has no attribute ... instead of completing or raising the documented SeedNodeDeletionException" % (f.qualname, norm(x)[:50], base))
+        rep.floor("R03.8", "dereferences of a parent in the tree model", 15, nder)
 
 
 def _pairing(rep, fi):
